@@ -133,6 +133,23 @@ CLAIMED = {
         'the builder layout; cshim; harness/girgen.py expectation (semantics of GIR attributes as implemented by '
         'girparser.c, reviewed case by case); types in g-ir-generate output not compared.',
    ref='DESIGN.md §4 C09'),
+ 'C06': dict(
+   technique='Coq proof of the blob codec over a layout regenerated from gitypelib-internal.h + translation validation of whole typelibs with an independent decoder written in Coq',
+   text='Theorems (Coq, axiom-free): reading a member after writing it gives the value and no other member changes; '
+        'for ANY list of non-overlapping members and values fitting their widths, decoding the encoded blob returns every '
+        'value (C06_blob_roundtrip: every blob kind at once; the format\'s 16-bit limits are the width hypotheses); the '
+        'layout regenerated on every run from gitypelib-internal.h by a compiled prober has all members inside their '
+        'struct, pairwise non-overlapping, and all blob sizes multiples of four (C06_layout_wellformed); blobs laid from an '
+        'aligned start stay aligned (C06_offsets_aligned). PARTIAL: the whole-file statement decode(compile g) = api_of g '
+        'is not proved (string pool, type de-duplication, directory construction of girnode.c/girmodule.c are not '
+        'modelled as an encoder); it is established per run by translation validation: generated GIR documents are '
+        'compiled by the real g-ir-compiler (accepted silently, deterministic bytes), decoded from the bytes by the '
+        'independent Coq decoder Model/C06.v (evaluated by vm_compute; header sizes/offsets/alignment checked), and the '
+        'decoded description is compared line by line with the repository API\'s and with the one derived from the GIR. '
+        'Four compiler defects found and fixed.',
+   note='Trusted: Coq kernel+VM; the layout prober (gcc, cshim); harness/girgen.py as the statement of what a GIR means; '
+        'one namespace without includes; record sizes/offsets compared only decoder vs API (C08 decides them).',
+   ref='DESIGN.md §4 C06'),
 }
 
 PLANNED = {}
